@@ -169,7 +169,11 @@ Definition q_wlits (c : cst) : list (Z * Z) := rdwl (mem c) (mbeg (bd c)) (Z.to_
 Definition q_btype (c : cst) : Z := styp (bd c).
 Definition q_bound (c : cst) : Z := if styp (bd c) =? 0 then -1 else mem c (mbeg (bd c) - 4).
 
-(* end(out): the call handed to out (the repaired code asserts that a minimize statement still has its sum body) *)
+(* end(out): `r->fix = 1` is the FIRST statement; then the call is handed to out (the repaired code asserts that a minimize
+   statement still has its sum body).  No statement of end() follows the call out->rule()/out->minimize(): a receiver that
+   throws from it (OEnd true true) interrupts end() exactly there, so the builder state after the exception is the state at
+   the call - c' = frozen, rule intact - and the receiver has seen the call.  Whether the receiver throws is therefore
+   invisible in the resulting state and in the call; it only shows in the status the harness prints (`ostat`). *)
 Definition cend (out : bool) (c : cst) : res (cst * list call) :=
   let c' := set_fix c true in
   if negb out then Ok (c', []) else
@@ -181,7 +185,7 @@ Definition cend (out : bool) (c : cst) : res (cst * list call) :=
 (* ---- operations as data ---- *)
 Inductive op :=
 | OStart (ht : Z) | OStartMin (prio : Z) | OStartBody | OStartSum (b : Z) | OSetBound (b : Z)
-| OAddHead (a : Z) | OAddGoal (l w : Z) | OEnd (out : bool) | OClear | OClearBody | OClearHead | OWeaken (to : Z) (w : bool).
+| OAddHead (a : Z) | OAddGoal (l w : Z) | OEnd (out thr : bool) | OClear | OClearBody | OClearHead | OWeaken (to : Z) (w : bool).
 
 Definition lift (r : res cst) : res (cst * list call) :=
   match r with Ok c => Ok (c, []) | Err e => Err e end.
@@ -195,12 +199,15 @@ Definition cstep (c : cst) (o : op) : res (cst * list call) :=
   | OSetBound b => lift (csetBound b c)
   | OAddHead a => lift (caddHead a c)
   | OAddGoal l w => lift (caddGoal l w c)
-  | OEnd out => cend out c
+  | OEnd out _ => cend out c
   | OClear => Ok (cclear c, [])
   | OClearBody => Ok (cclearBody c, [])
   | OClearHead => Ok (cclearHead c, [])
   | OWeaken to w => lift (cweaken to w c)
   end.
+
+(* status printed for an operation that returned: 0, or 3 = "the receiver of end(out) threw and the exception propagated" *)
+Definition ostat (o : op) : Z := match o with OEnd true true => 3 | _ => 0 end.
 
 (* what the harness prints for a query: head(), head_end()-head_begin(), bodyType(), bound(), body()|sum(), and rule() *)
 Definition obs_body (bt bound : Z) (lits : list Z) (wl : list (Z * Z)) : list Z :=
@@ -235,7 +242,7 @@ Fixpoint run_mops (t : tri cst) (ops : list mop) : list Z :=
   | MQuery i full :: r => cquery (getb t i) full ++ run_mops t r
   | MOp i o :: r =>
       match cstep (getb t i) o with
-      | Ok (c', calls) => if fault c' then [777] else 0 :: enc_calls calls ++ run_mops (setb t i c') r
+      | Ok (c', calls) => if fault c' then [777] else ostat o :: enc_calls calls ++ run_mops (setb t i c') r
       | Err e => [e]
       end
   | MCopy i j :: r => 0 :: run_mops (setb t j (ccopy (getb t i))) r
@@ -264,7 +271,7 @@ Fixpoint decode (fuel : nat) (l : list Z) : list mop :=
       | 6 :: i :: a :: r => MOp (idx i) (OAddHead (wrapu a)) :: decode f r
       | 7 :: i :: x :: w :: r => MOp (idx i) (OAddGoal (wraps x) (wraps w)) :: decode f r
       | 17 :: i :: x :: r => MOp (idx i) (OAddGoal (wraps x) 1) :: decode f r
-      | 8 :: i :: o :: r => MOp (idx i) (OEnd (negb (o =? 0))) :: decode f r
+      | 8 :: i :: o :: r => MOp (idx i) (OEnd (negb (o =? 0)) (o =? 2)) :: decode f r
       | 9 :: i :: r => MOp (idx i) OClear :: decode f r
       | 10 :: i :: r => MOp (idx i) OClearBody :: decode f r
       | 11 :: i :: r => MOp (idx i) OClearHead :: decode f r
